@@ -66,7 +66,7 @@ func (vc *VC) doCall(st *State, fr *Frame, call *ssa.CallCommon, instr ssa.Instr
 	if call.IsInvoke() {
 		key := ifaceKey(call)
 		recv := fnv
-		vc.callEvent(st, fr, key, args, nil, false, pos)
+		vc.callEvent(st, fr, key, args, nil, false, pos, sig)
 		if c, ok := vc.ifaceCon[key]; ok {
 			// nil interface receiver panics
 			if iv, ok := recv.(IfaceV); ok {
@@ -83,7 +83,7 @@ func (vc *VC) doCall(st *State, fr *Frame, call *ssa.CallCommon, instr ssa.Instr
 			}
 			res := vc.applyContract(st, fr, c, key, names, sig, pos)
 			vc.setResult(fr, instr, res)
-			vc.callEvent(st, fr, key, args, res, true, pos)
+			vc.callEvent(st, fr, key, args, res, true, pos, sig)
 			return false
 		}
 		if iv, ok := recv.(IfaceV); ok && !vc.effectFreeIface(call) {
@@ -94,7 +94,7 @@ func (vc *VC) doCall(st *State, fr *Frame, call *ssa.CallCommon, instr ssa.Instr
 		}
 		res := vc.freshResults(st, sig, "inv_"+call.Method.Name())
 		vc.setResult(fr, instr, res)
-		vc.callEvent(st, fr, key, args, res, true, pos)
+		vc.callEvent(st, fr, key, args, res, true, pos, sig)
 		return false
 	}
 	fv, ok := fnv.(FuncV)
@@ -110,7 +110,7 @@ func (vc *VC) doCall(st *State, fr *Frame, call *ssa.CallCommon, instr ssa.Instr
 	case nil:
 		// symbolic function value: field contract?
 		if fv.From != "" {
-			vc.callEvent(st, fr, fv.From, args, nil, false, pos)
+			vc.callEvent(st, fr, fv.From, args, nil, false, pos, sig)
 			if c, ok := vc.fieldCon[fv.From]; ok {
 				vc.check(st, fr, "safety", "nil-func-call", vc.safetyTags(fr), sNot(sEq(fv.Term, "0")), pos)
 				names := map[string]nameEntry{}
@@ -126,7 +126,7 @@ func (vc *VC) doCall(st *State, fr *Frame, call *ssa.CallCommon, instr ssa.Instr
 				}
 				res := vc.applyContract(st, fr, c, fv.From, names, sig, pos)
 				vc.setResult(fr, instr, res)
-				vc.callEvent(st, fr, fv.From, args, res, true, pos)
+				vc.callEvent(st, fr, fv.From, args, res, true, pos, sig)
 				return false
 			}
 		}
@@ -158,7 +158,7 @@ func (vc *VC) effectFreeIface(call *ssa.CallCommon) bool {
 func (vc *VC) callFunction(st *State, fr *Frame, callee *ssa.Function, fv FuncV, call *ssa.CallCommon, instr ssa.Instruction, args []Val, b *ssa.BasicBlock, idx int, reexec bool, pos token.Pos) bool {
 	sig := callee.Signature
 	full := callee.String()
-	vc.callEvent(st, fr, full, args, nil, false, pos)
+	vc.callEvent(st, fr, full, args, nil, false, pos, sig)
 	// special forms
 	switch full {
 	case "(*golang.org/x/sync/errgroup.Group).Go":
@@ -188,7 +188,7 @@ func (vc *VC) callFunction(st *State, fr *Frame, callee *ssa.Function, fv FuncV,
 		}
 		res := vc.applyContract(st, fr, c, funcShort(callee), names, sig, pos)
 		vc.setResult(fr, instr, res)
-		vc.callEvent(st, fr, full, args, res, true, pos)
+		vc.callEvent(st, fr, full, args, res, true, pos, sig)
 		return false
 	}
 	if vc.isEffectFree(callee) {
@@ -339,7 +339,11 @@ func (vc *VC) applyContract(st *State, fr *Frame, c *Contract, calleeName string
 }
 
 // callEvent fires "on call X" (before) / "on after X" events.
-func (vc *VC) callEvent(st *State, fr *Frame, target string, args []Val, res []Val, after bool, pos token.Pos) {
+func (vc *VC) callEvent(st *State, fr *Frame, target string, args []Val, res []Val, after bool, pos token.Pos, sigs ...*types.Signature) {
+	var sig *types.Signature
+	if len(sigs) > 0 {
+		sig = sigs[0]
+	}
 	for _, ev := range vc.events {
 		if ev.Kind != "call" || ev.After != after {
 			continue
@@ -356,15 +360,34 @@ func (vc *VC) callEvent(st *State, fr *Frame, target string, args []Val, res []V
 			}
 		}
 		extra := map[string]nameEntry{}
+		argType := func(i int) types.Type {
+			if sig == nil {
+				return valType(args[i])
+			}
+			if sig.Recv() != nil && len(args) == sig.Params().Len()+1 {
+				if i == 0 {
+					return sig.Recv().Type()
+				}
+				return sig.Params().At(i - 1).Type()
+			}
+			if i < sig.Params().Len() {
+				return sig.Params().At(i).Type()
+			}
+			return valType(args[i])
+		}
 		for i, n := range ev.Vars {
 			if i < len(args) {
-				extra[n] = nameEntry{V: args[i], T: valType(args[i])}
+				extra[n] = nameEntry{V: args[i], T: argType(i)}
 			}
 		}
 		for i, r := range res {
-			extra[fmt.Sprintf("result%d", i)] = nameEntry{V: r, T: valType(r)}
+			t := valType(r)
+			if sig != nil && i < sig.Results().Len() {
+				t = sig.Results().At(i).Type()
+			}
+			extra[fmt.Sprintf("result%d", i)] = nameEntry{V: r, T: t}
 			if len(res) == 1 {
-				extra["result"] = nameEntry{V: r, T: valType(r)}
+				extra["result"] = nameEntry{V: r, T: t}
 			}
 		}
 		vc.fireEvent(st, fr, ev, extra, pos)
